@@ -315,6 +315,24 @@ func (s *session) ciscoLogin() {
 			if line == "enable" {
 				s.event(line, "login", "accepted")
 				s.w("%s\r\n", line)
+				if sp.EnableUnset {
+					// The device insists on a new enable password; it is
+					// only stored if it is typed twice.
+					s.w("The enable password is not set.  Please set it now.\r\nEnter  Password: ")
+					p1 := s.readLine()
+					s.event("<new-enable-password>", "login", "accepted")
+					s.w("*****\r\nRepeat Password: ")
+					p2 := s.readLine()
+					if p1 == p2 && p1 != "" {
+						s.event("enable password ***** (defined in the dialogue of 'enable')", "config-change", "accepted")
+						s.w("*****\r\nNote: Save your configuration so that the password can be used for FXOS failsafe access and persists across reboots\r\n" +
+							"(\"write memory\" or \"copy running-config startup-config\").\r\n")
+						break
+					}
+					s.event("<repeat-enable-password:mismatch>", "login", "rejected:auth")
+					s.w("*****\r\nPasswords do not match\r\n%s> ", sp.Hostname)
+					continue
+				}
 				if sp.EnablePass {
 					s.w("Password: ")
 					pw := s.readLine()
